@@ -140,6 +140,13 @@ def space(tier):
         p = P.program(tuple(sh.split("+")))
         units.append(({"program": p, "cfg": {"env_kinds": ["fault", "page"], "faults": [], "state_faults": ["5xx", "4xx"],
                                              "page_modes": [4, 1]}}, {"fault": 1, "page": 1, "total": 2}, cap))
+    # the refresh call of a timer-driven resubmission fails while the sibling parks d seconds after start (grid around the
+    # wake-up time, 300 ms API calls)
+    from vcheck.props import c07 as _c07
+    for kind, p in _c07.programs(tier):
+        if kind == "grid" and ".cb" in p["name"]:
+            units.append(({"program": p, "cfg": {"env_kinds": ["fault"], "faults": ["5xx", "4xx"], "api_latency": 0.3}},
+                          {"fault": 1, "total": 1}, cap))
     # a synchronous record that alone exceeds the 750 KB batch limit waits in the overflow queue while the call fails
     for nm, seq in (("S[800KB]+S", [{"k": "step", "fn": {"bytes": 800_000}}, {"k": "step", "fn": {"ret": 2}}]),
                     ("par[S[400KB]|S[400KB]]", [{"k": "par", "cfg": {"cc": "all_completed"}, "branches": [
